@@ -53,6 +53,14 @@ def build(tier, work, builder):
             sl.sub("L9:throw->ghost flag", r"throw DuplicateDefinitionError\(name\);", "{ verif_thrown = 1; return %s; }" % m.group(1), required=True)
         fl.append(sl)
     write(work, "document_ctors.inc", "\n".join(s.text for s in fl) + "\n")
+    # DocumentBuilder::process, from the resolved symbol on: marks the template as used and appends the process
+    bsrc = X.Source("src/DocumentBuilder.cpp")
+    bp = X.function(bsrc, "DocumentBuilder::process", r"^void DocumentBuilder::process\(const char\* name\)")
+    pt = X.region(bsrc, "DocumentBuilder::process (from the resolved instance to add_process)", r"^\s*(auto|instance_t)&\s*\w+ = \*static_cast<instance_t\*>\(symbol\.get_data\(\)\);",
+                  r"^\s*proc_priority\(name\);", within=(bp.start, bp.end))
+    pt.sub("L15:auto&->instance_t&", r"\bauto& (\w+) = \*static_cast<instance_t\*>", r"instance_t& \1 = *static_cast<instance_t*>")
+    write(work, "builder_process.inc", "void DocumentBuilder::process_tail(symbol_t symbol)\n{\n" + pt.text + "\n}\n")
+    fl = fl + [pt]
     write(work, "kinds.h", T.kinds_header())
     slices += fl
     obj = builder.cc(os.path.join(CDIR, "doc08.cpp"), includes=[work, os.path.join(X.REPO, "include")], cpp=True)
@@ -64,8 +72,12 @@ def build(tier, work, builder):
                     ("lsc_instance", ["Document::add_LSC_instance"]), ("process", ["Document::add_process"])):
         jobs.append(F.Job("c08_" + nm, "h_c08_" + nm, [obj, hobj], timeout=300, unwind=14, functions=fns,
                           bound_note="containers of <= 4 elements, frames of <= 3 symbols"))
+    # for C17 (run there, not here): the system line marks the template of every process as instantiated
+    marks = F.Job("c17_process_marks_template", "h_c08_process_marks_template", [obj, hobj], timeout=300, unwind=14,
+                  functions=["DocumentBuilder::process (from the resolved instance on)", "Document::add_process"],
+                  bound_note="containers of <= 4 elements, frames of <= 3 symbols")
     return {
-        "jobs": jobs, "slices": [s.info() for s in slices],
+        "jobs": jobs, "lemma_jobs": [marks], "slices": [s.info() for s in slices],
         "drops": ["the struct declarations of document.h are trusted stand-ins with the same member names (only the members the constructors touch)"],
         "trusted_base": ["CBMC 6.11 C++ front end + SAT", "stubs/scope_env.h arena frames/symbols (behaviour = the contracts proved for the real frame_t in C07)",
                          "std::list/std::deque never move their elements (pointer stability: the reason the real containers were chosen)",
